@@ -150,10 +150,15 @@ class Scratch:
                      REPO + '/', dst + '/'])
                 os.makedirs(os.path.join(self.dir, 'home'), exist_ok=True)
                 env = self._env()
-                with open(os.path.join(self.dir, 'build.log'), 'w') as lg:
-                    r = subprocess.call(
-                        [PY, 'setup.py', 'build_ext', '--inplace', '-j16'],
-                        cwd=dst, env=env, stdout=lg, stderr=subprocess.STDOUT)
+                # one extension build at a time on this machine (each runs 16
+                # compilers of ~0.4 GB; concurrent checks of different trees
+                # would otherwise exhaust memory)
+                with flock(os.path.join(SCRATCH_BASE, 'build.lock')):
+                    with open(os.path.join(self.dir, 'build.log'), 'w') as lg:
+                        r = subprocess.call(
+                            [PY, 'setup.py', 'build_ext', '--inplace', '-j16'],
+                            cwd=dst, env=env, stdout=lg,
+                            stderr=subprocess.STDOUT)
                 if r != 0:
                     raise MachineryError(
                         'building extensions from the working tree failed; '
